@@ -7,7 +7,7 @@ import refmodel
 
 ID = 'C08'
 DOMAIN = 'selmap+gin'
-PROPS_FILES = ['Gin/Props/C08.lean']
+PROPS_FILES = ['Gin/Props/C08.lean', 'Gin/Props/C08b.lean']
 ANCHOR_FILES = ['selector_map.py', 'config.py']
 RULE = ('histories of 20-60 SelectorMap operations (set/pop/copy/clear + queries) on up to 3 live maps, '
         'names over a 3-letter component alphabet with 1-4 components; non-trivial = at least 2 live names '
